@@ -49,7 +49,7 @@ def gen_cases(tier, seed):
         sel = isos
     cases = []
     for k, iso in enumerate(sel):
-        for j in range(1 if tier == "quick" else 3):
+        for j in range(1 if tier == "quick" else 8):
             o = workload.base_country(NMONTHS=workload.FAMILIES_COMMON["NMONTHS"][(k + j) % 7],
                                       crop_disruption=rnd.choice(["country_nuclear_winter", "country_nuclear_winter", "zero"]),
                                       seasonality=rnd.choice(["country", "country", "no_seasonality"]),
@@ -61,7 +61,7 @@ def gen_cases(tier, seed):
     for j in range(2 if tier == "quick" else 6):
         o = dict(g, NMONTHS=workload.FAMILIES_COMMON["NMONTHS"][j % 7])
         cases.append({"kind": "paired", "iso": "WOR", "opts": o, "id": "WOR#%d" % j})
-    for k in range(24 if tier == "quick" else 300):
+    for k in range(24 if tier == "quick" else 1200):
         cases.append({"kind": "direct", "gen_seed": seed * 4099 + k, "examples": 12, "id": "direct#%d" % k})
     return cases
 
